@@ -5,7 +5,12 @@ use crate::common::*;
 pub const Q: i32 = 12289;
 
 pub fn four_squares(m: i64) -> Option<[i64; 4]> {
-    let r = (m as f64).sqrt() as i64 + 1;
+    four_squares_capped(m, i64::MAX)
+}
+
+/// m = a^2 + b^2 + c^2 + d^2 with a >= b >= c >= d >= 0 and a <= cap.
+pub fn four_squares_capped(m: i64, cap: i64) -> Option<[i64; 4]> {
+    let r = ((m as f64).sqrt() as i64 + 1).min(cap);
     for a in (0..=r).rev() {
         let ma = m - a * a;
         if ma < 0 {
@@ -49,7 +54,7 @@ pub fn vec_with_norm(n: usize, target: i64, twist: u64) -> Vec<i16> {
         e[i] = if (i as u64 + twist) % 2 == 0 { v as i16 } else { -(v as i16) };
         rem -= v * v;
     }
-    let fs = four_squares(rem).expect("four squares");
+    let fs = four_squares_capped(rem, 6144).expect("four squares");
     for k in 0..4 {
         assert!(fs[k] <= 6144, "tail too large");
         e[n - 4 + k] = if k % 2 == 0 { fs[k] as i16 } else { -(fs[k] as i16) };
